@@ -154,6 +154,9 @@ class MPSSystem(System):
             lambda W, c: _keep_boundary(W, c, lambda: ptn.calculate_ground_state_local_twosite(W.K, W.psi, 1, numiter_lanczos=4)))
         add(('split_merge01',), L >= 2 and nz, lambda W, c: _split_merge(W))
         add(('psi=from_vector',), not np.any(np.asarray(w.psi.qd)) and small, lambda W, c: _from_vector(W))
+        add(('psi=from_vector', 0.2), not np.any(np.asarray(w.psi.qd)) and small and nz, lambda W, c: _from_vector(W, 0.2))
+        add(('phi=MPS(fill)',), True, lambda W, c: setattr(W, 'phi', MPS(W.phi.qd, W.phi.qD, fill=0.5)))
+        add(('H=MPO(fill)',), _maxbond(w.H) <= MAXBOND, lambda W, c: setattr(W, 'H', MPO(W.H.qd, W.H.qD, fill=1.0)))
         add(('K=constructor',), True, lambda W, c: setattr(W, 'K', CTORS[W.ctor]()))
         add(('phi=MPS(random)',), True, lambda W, c: setattr(W, 'phi', MPS(W.phi.qd, W.phi.qD, fill='random', rng=np.random.default_rng(3))))
         add(('H=MPO(random)',), _maxbond(w.H) <= MAXBOND, lambda W, c: setattr(W, 'H', MPO(W.H.qd, W.H.qD, fill='random', rng=np.random.default_rng(4))))
@@ -203,9 +206,9 @@ def _split_merge(W):
     return None
 
 
-def _from_vector(W):
+def _from_vector(W, tol=0):
     v = W.psi.as_vector()
-    W.psi = MPS.from_vector(len(W.psi.qd), W.psi.nsites, v, 0)
+    W.psi = MPS.from_vector(len(W.psi.qd), W.psi.nsites, v, tol)
     return None
 
 
@@ -255,7 +258,7 @@ def spaces(tier, seed):
             if ok:
                 chunks.append(({'world': wn, 'prefix': [list(label)]}, depth - 1))
     return [Space('mps_histories', chunks, run_chunk=_run_chunk, sig=sig,
-                  bounds={'worlds': worlds, 'depth': depth, 'menu_size': 25, 'max_bond_guard': MAXBOND,
+                  bounds={'worlds': worlds, 'depth': depth, 'menu_size': 28, 'max_bond_guard': MAXBOND,
                           'menu': ['psi.orthonormalize(l/r)', 'psi.compress(tol 0/0.2, l/r)', 'H.orthonormalize(l/r)', 'psi=psi+phi', 'psi=phi-psi',
                                    'psi=apply(H,psi)', 'H=H+K', 'H=H-K', 'H=K@K', 'tdvp two-site (tol 0/1e-3)', 'tdvp single-site',
-                                   'dmrg single-site', 'dmrg two-site', 'split/merge sites 0,1', 'psi=from_vector(as_vector)', 'K=constructor', 'phi=MPS(qd,qD,random)', 'H=MPO(qd,qD,random)']})]
+                                   'dmrg single-site', 'dmrg two-site', 'split/merge sites 0,1', 'psi=from_vector(as_vector, tol 0 / 0.2)', 'phi=MPS(qd,qD,fill=0.5)', 'H=MPO(qd,qD,fill=1.0)', 'K=constructor', 'phi=MPS(qd,qD,random)', 'H=MPO(qd,qD,random)']})]
